@@ -550,7 +550,39 @@ def run_direct_mode_layouts(root, tag, compiler):
                     fails.append({'kind': 'direct_mode_stale_result', 'detail': f'layout {name}: [{step}: {var}={val}] result differs from the direct compile ({cls})', 'ops': list(trace)}); break
         finally:
             sc.stop(); shutil.rmtree(d, ignore_errors=True)
-    return {'requests': reqs, 'hits': hits, 'layouts': len(layouts) + 5, 'fails': fails, 'samples': samples[:1]}
+    # ---- environment variables that change the *result* (not the header search): with direct mode on, a change must not be answered
+    #      from the entry recorded under the other value; switching back must hit.  The source includes a header (a preprocessor-cache
+    #      entry is only written when an include was recorded) and provokes a warning (the locale shows in the diagnostics).
+    envsets = [('locale', 'LC_ALL', ('C.UTF-8', 'C'))]
+    if os.path.basename(compiler) in ('clang', 'clang++'): envsets.append(('ccc_override', 'CCC_OVERRIDE_OPTIONS', ('+-O2', '+-O0')))
+    n_env = 0
+    for name, var, (v1, v2) in envsets:
+        n_env += 1
+        d = os.path.join(root, 'lay_env_' + name); shutil.rmtree(d, ignore_errors=True); w = os.path.join(d, 'w'); os.makedirs(w)
+        open(os.path.join(w, 'k.h'), 'w').write('#define K 3\n'); open(os.path.join(w, 'main.c'), 'w').write('#include "k.h"\nint f(int n) { int unused; int s = 0; for (int i = 0; i < n; i++) s += i * K; return s; }\n')
+        old_t = time.time() - 3600
+        for rel in ('k.h', 'main.c'): os.utime(os.path.join(w, rel), (old_t, old_t))
+        sc = Sc(os.path.join(d, 'sc'), f'{tag}env{name}'); sc.use_config({'use_preprocessor_cache_mode': True}); sc.start()
+        argv = [compiler, '-Wall', '-c', 'main.c', '-o', 'out.o']; trace = [f'layout env_{name}: argv {argv[1:]}, only ${var} changes']
+        try:
+            time.sleep(1.1)
+            for step, val, must_hit in (('first', v1, False), ('other value', v2, False), ('back', v1, True), ('other again', v2, True)):
+                env = {var: val}; out = os.path.join(w, 'out.o')
+                if os.path.exists(out): os.remove(out)
+                b = counts(sc.stats() or {})
+                r = sc.compile(argv, w, env=env); got = (r.returncode, r.stdout, r.stderr, file_state(out) and file_state(out)[0])
+                a = counts(sc.stats() or {}); cls = 'hit' if a.get('cache_hits', 0) > b.get('cache_hits', 0) else 'miss'; hits += cls == 'hit'
+                if os.path.exists(out): os.remove(out)
+                dr = subprocess.run(argv, cwd=w, env=dict(os.environ, **env), capture_output=True); want = (dr.returncode, dr.stdout, dr.stderr, file_state(out) and file_state(out)[0])
+                reqs += 1; trace.append(f'{step}: {var}={val} -> rc={got[0]} {cls}')
+                if got != want:
+                    what = [n_ for n_, x, y in zip(('exit status', 'stdout', 'stderr', 'object'), got, want) if x != y]
+                    fails.append({'kind': 'direct_mode_stale_result', 'detail': f'layout env_{name}: [{step}: {var}={val}] {"/".join(what)} differ from the direct compile ({cls})', 'ops': list(trace)}); break
+                if must_hit and cls != 'hit':
+                    fails.append({'kind': 'repeat_not_hit', 'detail': f'layout env_{name}: [{step}: {var}={val}] was stored before but classified {cls}', 'ops': list(trace)}); break
+        finally:
+            sc.stop(); shutil.rmtree(d, ignore_errors=True)
+    return {'requests': reqs, 'hits': hits, 'layouts': len(layouts) + 5 + n_env, 'fails': fails, 'samples': samples[:1]}
 
 # ------------------------------------------------------------------------------------------------ scripted corpus histories (run first)
 def _set(attr, val):
